@@ -12,7 +12,7 @@ ID = "C08"
 LEVEL = "model_checking"
 LEVEL_TEXT = ("Explicit enumeration of every nesting tree with <=4 items (thorough <=5) and depth <=3 over 10 leaf kinds (define label / "
               "`=` / `:=` for names a,b; reference a,b; qualified reference s.a, s.b, t.a) and 5 containers (block, .scope s, .scope t, "
-              "macro application, 2-iteration loop), plus all trees with 5 items (thorough 6) over a reduced alphabet and over an 'early evaluation' alphabet (width-inferred `lda a`, `u = a + 1`); each rendered "
+              "macro application, 2-iteration loop), plus all trees with 5 items (thorough 6) over a reduced alphabet and over an 'early evaluation' alphabet (width-inferred `lda a`, `u = a + 1`) and a 'repeated application' alphabet (the same macro applied twice, a loop whose variable is spelled like an outer name); each rendered "
               "and assembled by the real assembler and compared with an independent lexical-environment model (bytes of every "
               "reference, rejection of out-of-scope references, label list). Metamorphic relations on every accepted tree: swapping "
               "the names a<->b consistently, and adding an unrelated label inside each scope, leave the output unchanged. "
@@ -32,6 +32,9 @@ LEAVES_FULL = [("dl", "a"), ("dl", "b"), ("de", "a"), ("de", "b"), ("dc", "a"), 
 # `lda a`) or by the symbol pass (`u = a + 1`) - which must not change what later references resolve to
 LEAVES_EARLY = [("dl", "a"), ("de", "a"), ("r", "a"), ("ri", "a"), ("re", "a"), ("q", "s.a")]
 CONT_EARLY = ["B", "Ss"]
+# repeated-application family: the SAME macro body applied twice, loops whose variable is spelled like an outer name
+LEAVES_REP = [("dl", "a"), ("de", "a"), ("dc", "a"), ("r", "a"), ("q", "s.a"), ("ri", "a")]
+CONT_REP = ["M2", "Fa", "Ss", "B"]
 CONT_FULL = ["B", "Ss", "St", "M", "F"]
 LEAVES_RED = [("dl", "a"), ("dl", "b"), ("de", "a"), ("r", "a"), ("r", "b"), ("q", "s.a")]
 CONT_RED = ["B", "Ss", "M"]
@@ -40,8 +43,8 @@ ORG = 0x018000
 
 def bound(tier):
     if tier == "thorough":
-        return "all trees with <=5 items over 10 leaves + 5 containers, depth <=3; all trees with 6 items over 6 leaves + 3 containers; all trees with <=6 items over the 6+2 early-evaluation alphabet"
-    return "all trees with <=4 items over 10 leaves + 5 containers, depth <=3; all trees with 5 items over 6 leaves + 3 containers; all trees with <=5 items over the 6+2 early-evaluation alphabet"
+        return "all trees with <=5 items over 10 leaves + 5 containers, depth <=3; all trees with 6 items over 6 leaves + 3 containers; all trees with <=6 items over the 6+2 early-evaluation alphabet ; all trees with one item fewer over the 6+4 repeated-application alphabet"
+    return "all trees with <=4 items over 10 leaves + 5 containers, depth <=3; all trees with 5 items over 6 leaves + 3 containers; all trees with <=5 items over the 6+2 early-evaluation alphabet ; all trees with one item fewer over the 6+4 repeated-application alphabet"
 
 
 def seqs(n, d, leaves, conts):
@@ -80,6 +83,13 @@ def cases(tier, seed):
     for n in range(1, red_n + 1):
         for fi in range(len(LEAVES_EARLY) + len(CONT_EARLY)):
             yield ("trees", "early", n, fi, None, False)
+    for n in range(1, red_n):
+        for fi in range(len(LEAVES_REP) + len(CONT_REP)):
+            if n >= 5:
+                for fj in range(len(LEAVES_REP) + len(CONT_REP) + 1):
+                    yield ("trees", "rep", n, fi, fj, False)
+            else:
+                yield ("trees", "rep", n, fi, None, False)
 
 
 def describe(case, res):
@@ -92,7 +102,8 @@ def describe(case, res):
 def trees_for(alpha, n, fi, fj):
     """Trees of cost n whose first item is item #fi of the alphabet (and, if fj is given, whose second top-level
     item is #fj, with fj == len(alphabet) meaning 'there is no second top-level item')."""
-    leaves, conts = {"full": (LEAVES_FULL, CONT_FULL), "red": (LEAVES_RED, CONT_RED), "early": (LEAVES_EARLY, CONT_EARLY)}[alpha]
+    leaves, conts = {"full": (LEAVES_FULL, CONT_FULL), "red": (LEAVES_RED, CONT_RED), "early": (LEAVES_EARLY, CONT_EARLY),
+                     "rep": (LEAVES_REP, CONT_REP)}[alpha]
     nl = len(leaves)
 
     def first_item(n, d, idx):
@@ -171,6 +182,14 @@ def to_program(tree, swap=False, extra_in=None):
                         name = f"mq{len(macros)}"
                         macros.append(("macro", name, [], body))
                         out.append(("call", name, []))
+                    elif k == "M2":
+                        name = f"mq{len(macros)}"
+                        macros.append(("macro", name, [], body))
+                        out.append(("call", name, []))
+                        out.append(("data", "db", [N(0x99)]))
+                        out.append(("call", name, []))
+                    elif k == "Fa":
+                        out.append(("for", nm("a"), N(0), N(2), body))
         if extra_in == my_idx:
             out.append(("label", "zz"))
         return out
@@ -182,8 +201,8 @@ def to_program(tree, swap=False, extra_in=None):
 def kinds_in(tree, acc=None):
     acc = set() if acc is None else acc
     for it in tree:
-        if it[0] in ("B", "Ss", "St", "M", "F"):
-            acc.add(it[0][0])
+        if it[0] in ("B", "Ss", "St", "M", "F", "M2", "Fa"):
+            acc.add(it[0] if it[0] in ("M2", "Fa") else it[0][0])
             kinds_in(it[1], acc)
     return acc
 
